@@ -67,6 +67,8 @@ fn main() {
             "C16" => props::c16::run(tier, seed),
             "C01" => props::c01::run(tier, seed),
             "C10" => props::c10::run(tier, seed),
+            "C12" => props::c12::run(tier, seed),
+            "C18" => props::c18::run(tier, seed),
             "C09" => props::c09::run(tier, seed),
             "C03" => props::c03::run(tier, seed),
             "C02" => props::c02::run(tier, seed),
